@@ -41,6 +41,12 @@ OBLIGATIONS.append(dict(name="gzip_compressor_copy", harness="harness/C19_gzip.c
     fp_map={"get_configuration": ["gzip_get_configuration"]}, reach=["rejected", "copy_failed", "copied"],
     functions=["gzip_compressor_create, gzip_create_copy, gzip_destroy, gzip_get_configuration (lib/sqfs/src/comp/gzip.c)"],
     bound="every configuration (level, window, flags symbolic); zlib replaced by a model that records the initialisation parameters; any allocation / init may fail"))
+def xwr(nb, tiers):
+    return dict(name="xattr_writer_copy_nb%d" % nb, harness="harness/C19_xattrwr.c", sources=[], included_sources=["lib/sqfs/src/xattr/xattr_writer.c"],
+        incdirs=["lib/sqfs/src/xattr", "."], defines=dict(NB=nb), unwind=nb + 3, tiers=tiers, timeout=300, reach=["copied", "copy_failed"],
+        functions=["xattr_writer_copy (lib/sqfs/src/xattr/xattr_writer.c)"],
+        bound="an xattr writer holding %d recorded key-value blocks (references and sizes symbolic); container copies (string tables, pair array, tree) are contract stubs that may fail" % nb)
+OBLIGATIONS += [xwr(0, ["quick", "thorough"]), xwr(1, ["quick", "thorough"]), xwr(2, ["quick", "thorough"]), xwr(3, ["thorough"])]
 ASSUMPTIONS = ["allocation succeeds in these obligations (failure paths belong to C13)", "destroy/copy hooks are the ones of the object's kind (function pointer targets restricted per harness)"]
 OUTSIDE = ["compressor copies against the real codec libraries", "longer operation histories before the copy than the ones listed per obligation"]
 META = dict(
